@@ -146,7 +146,7 @@ pub fn run(args: &Args, report: &mut Report) {
             let rendered = match vh_common::catch(AssertUnwindSafe(|| humanize_type(w.db(), &ty, RenderLevel::Documentation))) {
                 Ok(r) => r,
                 Err(m) => {
-                    report.oracle_failure(json!({"input": input, "what": format!("humanize_type panicked: {m}"), "class": null}));
+                    push_failure(report, json!({"input": input, "what": format!("humanize_type panicked: {m}"), "class": null}));
                     continue;
                 }
             };
@@ -172,13 +172,13 @@ pub fn run(args: &Args, report: &mut Report) {
                                 None
                             };
                             report.count(&format!("oracle_class:{}", class.unwrap_or("unclassified")));
-                            report.oracle_failure(json!({"input": input, "what": format!("`{text}` has type {o}, renders as `{rendered}`, which reads back as {b}"), "class": class}));
+                            push_failure(report, json!({"input": input, "what": format!("`{text}` has type {o}, renders as `{rendered}`, which reads back as {b}"), "class": class}));
                         } else {
                             report.count("oracle_roundtrip_ok");
                         }
                     }
                     (Some(o), None) => {
-                        report.oracle_failure(json!({"input": input, "what": format!("`{text}` has type {o}, renders as `{rendered}`, which reads back as {:?}", back), "class": null}));
+                        push_failure(report, json!({"input": input, "what": format!("`{text}` has type {o}, renders as `{rendered}`, which reads back as {:?}", back), "class": null}));
                     }
                     _ => report.count("oracle_not_serialisable"),
                 }
@@ -226,4 +226,20 @@ pub fn run(args: &Args, report: &mut Report) {
             }
         }
     }
+}
+
+/// keep the list of reported failures small per known class so that unclassified ones are never cut off
+fn push_failure(report: &mut Report, v: Value) {
+    let class = v["class"].as_str().map(|s| s.to_string());
+    if let Some(c) = class {
+        let key = format!("oracle_listed:{c}");
+        let n = report.distribution.get(&key).copied().unwrap_or(0);
+        report.count(&key);
+        if n >= 5 {
+            report.count("oracle_failures_total");
+            report.count("oracle_failures_not_listed");
+            return;
+        }
+    }
+    report.oracle_failure(v);
 }
